@@ -207,7 +207,6 @@ Section WriteProofs.
   Qed.
 
   (* ---- reading back what was assembled ---- *)
-  Hypothesis jdec_jenc : forall m, jdec (jenc m) = Some m.
 
   Lemma tail_skip12 a b c (t : str) : skipn 12 (le32 a ++ le32 b ++ le32 c ++ t) = t.
   Proof. reflexivity. Qed.
@@ -257,11 +256,11 @@ Section WriteProofs.
   Lemma the_file_reads ds fsec fcnt ff : Forall desc_wf ds ->
     let m := the_meta ds fsec fcnt in
     let file := the_file ds fsec m in
-    lenZ file <= Max64 -> lenZ (jenc m) < 4294967296 ->
+    lenZ file <= Max64 -> lenZ (jenc m) < 4294967296 -> jdec (jenc m) = Some m ->
     (0 < lenZ fsec -> parse_section crc dec_ok fsec = Some ff) -> (lenZ fsec = 0 -> ff = (None, None, None)) ->
     snd (read_metadata crc dec_ok jdec file) = Some (m, lenZ file, ff).
   Proof.
-    intros Hwf m file Hmax Hjs Hparse Hnone.
+    intros Hwf m file Hmax Hjs jdec_jenc Hparse Hnone.
     set (D := datas ds) in *. set (Rg := secs ds) in *. set (mb := jenc m) in *.
     set (T := le32 (Z.of_N (crc mb)) ++ le32 (lenZ mb) ++ le32 FileVersion ++ magic).
     assert (Ef : file = D ++ Rg ++ fsec ++ mb ++ T).
@@ -288,7 +287,7 @@ Section WriteProofs.
     { rewrite Ef. replace (D ++ Rg ++ fsec ++ mb ++ T) with ((D ++ Rg ++ fsec) ++ mb ++ T) by (repeat rewrite <- app_assoc; reflexivity).
       replace (lenZ ((D ++ Rg ++ fsec) ++ mb ++ T) - 20 - lenZ mb) with (lenZ (D ++ Rg ++ fsec)) by (rewrite !lenZ_app, HT; lia).
       apply slice_mid. }
-    rewrite Emb, Z.eqb_refl. cbn [negb]. unfold mb at 1. rewrite jdec_jenc.
+    rewrite Emb, Z.eqb_refl. cbn [negb]. rewrite jdec_jenc.
     change (m_ffs m) with (lenZ fsec).
     replace (lenZ fsec <? 0) with false by (symmetry; apply Z.ltb_ge; lia).
     replace (lenZ fsec >? lenZ file - 20 - lenZ mb) with false by (symmetry; rewrite Z.gtb_ltb; apply Z.ltb_ge; lia).
@@ -340,7 +339,6 @@ Section Truthful.
   Variable filters_of : list str -> filters.
   Variable entries : str -> entry3.
   Hypothesis crc_range : forall s, (crc s < 4294967296)%N.
-  Hypothesis jdec_jenc : forall m, jdec (jenc m) = Some m.
   Hypothesis compress_none : forall x, compress CNone x = x.
   Hypothesis decompress_compress : forall k x, k <> CNone -> k <> COther -> decompress k (compress k x) = Some x.
 
@@ -424,6 +422,21 @@ Section Truthful.
   Lemma desc_of_wf cfg a : action_ok cfg a -> desc_wf (desc_of crc compress filters_of entries cfg a).
   Proof. destruct a; cbn; unfold desc_wf; cbn; [reflexivity|intros [H _]; now rewrite H]. Qed.
 
+  (* C03: what a block stores decodes back to the framed rows, and scanning yields exactly the rows marshaled *)
+  Lemma store_roundtrip cfg rows off rel : cfg <> COther -> Forall small_row rows ->
+    let d := built_desc crc compress filters_of entries cfg rows in
+    decode_block crc decompress (mkblock off rel d) (d_c d) = Some (frame rows) /\ scan (frame rows) = (rows, true).
+  Proof.
+    intros Hcfg Hsm d. split; [|now apply scan_frame].
+    unfold d, built_desc, mkblock, decode_block.
+    cbn [b_has_hash b_hash b_comp b_usize d_c d_usize d_comp d_hash d_has_hash].
+    rewrite N.eqb_refl. cbn [negb andb].
+    pose proof (lenZ_nonneg (frame rows)).
+    destruct cfg; try congruence; rewrite acc_usize_frame;
+      replace (lenZ (frame rows) <? 0) with false by (symmetry; apply Z.ltb_ge; lia);
+      rewrite decompress_compress by discriminate; now rewrite Z.eqb_refl.
+  Qed.
+
   Lemma built_content cfg rows off rel : cfg <> COther -> filters_ok dec_ok (filters_of rows) ->
     let d := built_desc crc compress filters_of entries cfg rows in
     content_ok (mkblock off rel d) (d_c d) (d_sec d) rows (filters_of rows) (counts_of entries rows).
@@ -502,7 +515,7 @@ Section Truthful.
     let all := flat_map rows_of_action acts in
     let file := fst (write_file crc jenc compress filters_of entries cfg acts) in
     let m := snd (write_file crc jenc compress filters_of entries cfg acts) in
-    filters_ok dec_ok (filters_of all) -> lenZ file <= Max64 -> lenZ (jenc m) < 4294967296 ->
+    filters_ok dec_ok (filters_of all) -> lenZ file <= Max64 -> lenZ (jenc m) < 4294967296 -> jdec (jenc m) = Some m ->
     snd (read_metadata crc dec_ok jdec file) = Some (m, lenZ file, filters_of all) /\
     layout_ok (lenZ file) (lenZ (jenc m)) m = true /\
     m_cnt m = counts_of entries all /\
@@ -513,7 +526,7 @@ Section Truthful.
                (match a with WBuild _ => b_has_hash b = true /\ b_comp b = cfg | WCopy _ _ _ _ => True end))
             acts (m_blocks m).
   Proof.
-    intros Hcfg Hacts all file m Hfok Hmax Hjs.
+    intros Hcfg Hacts all file m Hfok Hmax Hjs Hjd.
     set (ds := map (desc_of crc compress filters_of entries cfg) acts).
     assert (Hwf : Forall desc_wf ds).
     { subst ds. rewrite Forall_map. eapply Forall_impl; [|exact Hacts]. intros a Ha. now apply (desc_of_wf cfg). }
@@ -531,10 +544,10 @@ Section Truthful.
     pose proof (encode_section_len _ _ Es) as Hslen.
     rewrite Efile in *. rewrite Emeta in *. clear Efile Emeta Em Ef Hfold.
     split; [|split; [|split]].
-    - apply (the_file_reads crc dec_ok decompress jdec jenc compress entries crc_range jdec_jenc ds fsec fcnt (filters_of all) Hwf Hmax Hjs).
+    - apply (the_file_reads crc dec_ok decompress jdec jenc compress entries crc_range ds fsec fcnt (filters_of all) Hwf Hmax Hjs Hjd).
       + intros _. now rewrite Efsec.
       + intro Z0. rewrite Efsec in Z0. lia.
-    - apply (the_file_layout crc dec_ok decompress jdec jenc compress entries crc_range jdec_jenc ds fsec fcnt Hwf).
+    - apply (the_file_layout crc dec_ok decompress jdec jenc compress entries crc_range ds fsec fcnt Hwf).
     - reflexivity.
     - pose proof (blocks_in_file ds fsec fcnt Hwf) as Hin. cbv zeta in Hin.
       subst ds. apply Forall2_map_left in Hin.
